@@ -40,7 +40,11 @@ def _usable_ref(v, ref, top=False):
         kids = children(ref)
         if top and (not kids or kids[0][0] != 'MSH'):
             return False
+        seen = set()
         for name, r, (mn, mx), kind in kids:
+            if name in seen and mn >= 1:
+                return False      # a *required* second sibling of the same name: unreachable for parser and validator alike
+            seen.add(name)
             if kind == 'SEG':
                 bad = name in T.PSEUDO_SEGMENTS or name not in T.lib(v).SEGMENTS or T.segment_defect(v, name)
                 if bad and mn >= 1:
@@ -98,7 +102,7 @@ def _tree(draw, v, ref, mode, places, unique, depth, rep_index=0, anchor=None, p
             else:
                 want = must or draw(st.integers(0, 9)) < p_opt
                 n = max(mn, 1) if want else 0
-                if n and (mx == -1 or mx > n) and draw(st.integers(0, 9)) < 3:
+                if n and (mx == -1 or mx > n) and draw(st.integers(0, 9)) < (6 if (mode == 'repeat' and depth >= 1) else 3):
                     n += draw(st.integers(1, 2)) if (mx == -1 or mx >= n + 2) else 1
             for _ in range(n):
                 out.append({'k': 'S', 'n': name, 'i': i})
